@@ -105,6 +105,14 @@ def cases(tier):
         spec = model(shape, dt, data, yf, myf, lim, prog, scen)
         if spec is not None:
             yield spec
+    # chained scenarios: a scenario with a LATER start year was applied to the parameter set first; the scenario under test covers its whole span,
+    # so the parameter set under test carries exactly the values of the second scenario (and the function is suspended from ITS first year)
+    for shape, dt, data, prog, scen in itertools.product(shapes, dts[:2], ["assume", "three"], [False, True], [("fn", "linear"), ("data", "linear"), ("fn", "previous")]):
+        spec = model(shape, dt, data, 1.0, 1.0, "both", prog, scen)
+        if spec is not None:
+            b_ = spec["scen"][0]
+            spec["scen_first"] = [dict(par=b_["par"], pop=b_["pop"], t=[S0 + 2.0, S0 + 2.5], y=[0.45, 0.3], interp=b_["interp"])]
+            yield spec
     # other routes to an integrated model (pickled / deep-copied after building, as the optimiser does; quantities read before integration),
     # with an additional output-only parameter whose function depends on time alone
     for via in simspace.VIAS:
